@@ -17,7 +17,9 @@ def replay(rec, repo, seed):
 
 PROP = Prop(
     'C14', 'skip_brute and all_lower are pure restrictions of the default run',
-    functions=[gld.GIO + ':_load_base_structures', 'pcfg_guesser:load_save', 'pcfg_guesser:parse_command_line', 'pcfg_guesser:main'],
+    functions=[gld.GIO + ':_load_base_structures', 'pcfg_guesser:load_save', 'pcfg_guesser:parse_command_line', 'pcfg_guesser:main',
+               # every loaded base structure seeds the queue (a renormalised probability may round to just above 1)
+               (gc.MOD + ':PcfgGrammar.initalize_base_structures', None)],
     lemmas=lambda: gld.firstm_stable.lemmas(),
     setup=gs.install,
     effects=effects.state_frame_for('C14', ['lib_guesser/pcfg_grammar.py', 'lib_guesser/priority_queue.py', 'lib_guesser/grammar_io.py', 'pcfg_guesser.py']),
